@@ -31,33 +31,83 @@ type Doc struct {
 	Name  string
 	Items []Item
 	Tags  []Tag
+	// TagsFirst: the source object lists tags before items. bleve creates the nested
+	// documents in the order it walks the object, so this decides whether a parent's tag
+	// elements get smaller index-internal ids than its item elements.
+	TagsFirst bool
 }
 
-// Data is the JSON-like value handed to Index(). A zero-length items/subs array is written
-// as an empty array, a zero-length tags array is left out (both spellings of "no element").
-func (d Doc) Data() map[string]interface{} {
-	items := []interface{}{}
+// The values handed to Index() are structs, not maps: bleve walks a map in Go's random map
+// order, which would make the internal order of a parent's elements differ from run to run.
+type subData struct {
+	A string `json:"a"`
+	B string `json:"b"`
+}
+
+type itemData struct {
+	K    string    `json:"k"`
+	V    string    `json:"v"`
+	Subs []subData `json:"subs"`
+}
+
+type tagData struct {
+	T string `json:"t"`
+}
+
+type docItemsFirst struct {
+	Name  string     `json:"name"`
+	Items []itemData `json:"items"`
+	Tags  []tagData  `json:"tags,omitempty"`
+}
+
+type docTagsFirst struct {
+	Name  string     `json:"name"`
+	Tags  []tagData  `json:"tags,omitempty"`
+	Items []itemData `json:"items"`
+}
+
+// Data is the value handed to Index(); marshalled to JSON it is the document of the replay
+// (field order as written). Zero-length items/subs arrays are empty arrays, a zero-length
+// tags array is left out.
+func (d Doc) Data() interface{} {
+	items := []itemData{}
 	for _, it := range d.Items {
-		subs := []interface{}{}
+		subs := []subData{}
 		for _, s := range it.Subs {
-			subs = append(subs, map[string]interface{}{"a": s.A, "b": s.B})
+			subs = append(subs, subData{s.A, s.B})
 		}
-		items = append(items, map[string]interface{}{"k": it.K, "v": it.V, "subs": subs})
+		items = append(items, itemData{it.K, it.V, subs})
 	}
-	r := map[string]interface{}{"name": d.Name, "items": items}
-	if len(d.Tags) > 0 {
-		tags := []interface{}{}
-		for _, t := range d.Tags {
-			tags = append(tags, map[string]interface{}{"t": t.T})
-		}
-		r["tags"] = tags
+	var tags []tagData
+	for _, t := range d.Tags {
+		tags = append(tags, tagData{t.T})
 	}
-	return r
+	if d.TagsFirst {
+		return docTagsFirst{Name: d.Name, Tags: tags, Items: items}
+	}
+	return docItemsFirst{Name: d.Name, Items: items, Tags: tags}
 }
 
 func (d Doc) String() string {
 	var sb strings.Builder
-	fmt.Fprintf(&sb, "{name:%s items:[", d.Name)
+	fmt.Fprintf(&sb, "{name:%s", d.Name)
+	tags := func() {
+		if len(d.Tags) == 0 {
+			return
+		}
+		sb.WriteString(" tags:[")
+		for i, t := range d.Tags {
+			if i > 0 {
+				sb.WriteString(" ")
+			}
+			fmt.Fprintf(&sb, "{t:%s}", t.T)
+		}
+		sb.WriteString("]")
+	}
+	if d.TagsFirst {
+		tags()
+	}
+	sb.WriteString(" items:[")
 	for i, it := range d.Items {
 		if i > 0 {
 			sb.WriteString(" ")
@@ -76,15 +126,8 @@ func (d Doc) String() string {
 		sb.WriteString("}")
 	}
 	sb.WriteString("]")
-	if len(d.Tags) > 0 {
-		sb.WriteString(" tags:[")
-		for i, t := range d.Tags {
-			if i > 0 {
-				sb.WriteString(" ")
-			}
-			fmt.Fprintf(&sb, "{t:%s}", t.T)
-		}
-		sb.WriteString("]")
+	if !d.TagsFirst {
+		tags()
 	}
 	sb.WriteString("}")
 	return sb.String()
